@@ -4,6 +4,7 @@ import edm
 import eevent
 import tables
 import esubst
+import ewho
 
 LEVEL = "E-CACHE + E-CACHE.dm + E-EVENT + E-TABLE tags"
 
@@ -40,4 +41,8 @@ def run(ctx):
                 "by an ordered comparison before narrowing; Substitution::id implementations return the stored id.")
     n = esubst.run(ctx, F)
     ctx.floor("E-CACHE.substid", "obligations on substitution ids", n, 4)
+    ctx.explain("E-WHO: the cache holds uncounted edges, so nodes and terminals may be freed only inside the pre_gc/post_gc "
+                "bracket: node-removal primitives are called by gc / try_remove_node / the level views only and are gated by "
+                "reorder_gc_prepared / allow_node_removal.")
+    ewho.run(ctx, F)
     ctx.not_decided = "independence of results from eviction order as behaviour; hash quality"
